@@ -122,6 +122,9 @@ type e3Engine struct {
 	gheap    map[*Obj]oset // contents of global cells and of objects that escaped into globals
 	changed  bool
 	inProg   map[string]bool
+	dirty    map[string]bool
+	dependents map[string]map[string]bool // callee key -> caller keys
+	gReaders map[string]bool            // summaries that read the global heap
 	implCache map[*types.Interface][]types.Type
 	reachCache map[string]bool
 	rounds   int
@@ -139,6 +142,7 @@ func getE3(c *Ctx) *e3Engine {
 		return e
 	}
 	e := &e3Engine{c: c, p: c.P, objs: map[string]*Obj{}, summ: map[string]*summary{}, gheap: map[*Obj]oset{},
+		dirty: map[string]bool{}, dependents: map[string]map[string]bool{}, gReaders: map[string]bool{},
 		inProg: map[string]bool{}, implCache: map[*types.Interface][]types.Type{}, reachCache: map[string]bool{}, retFindCache: map[string][]e3Finding{}}
 	e3Singleton[c.P] = e
 	e.initGlobals()
@@ -345,6 +349,7 @@ func (e *e3Engine) implementors(iface *types.Interface) []types.Type {
 // per-function analysis state
 
 type fstate struct {
+	key      string
 	e        *e3Engine
 	fn       *ssa.Function
 	ctx      map[int]map[*ssa.Function]bool // param idx -> function identities reachable from the argument
@@ -430,7 +435,7 @@ func (st *fstate) addContains(o *Obj, s oset) {
 				continue // recorded as a flow in the local heap below
 			}
 			if gs.add(x) {
-				st.e.changed = true
+				st.e.globalHeapChanged()
 				st.changed = true
 				st.e.escapeToGlobal(st, x)
 			}
@@ -462,7 +467,7 @@ func (e *e3Engine) escapeToGlobal(st *fstate, o *Obj) {
 			continue
 		}
 		if gs.add(x) {
-			e.changed = true
+			e.globalHeapChanged()
 			e.escapeToGlobal(st, x)
 		}
 	}
@@ -590,7 +595,10 @@ func (st *fstate) load(s oset) oset {
 			out.add(o)
 		}
 		out.addAll(st.contains[o])
-		out.addAll(st.e.gheap[o])
+		if o.kind == kG || o.kind == kF || o.kind == kR || o.kind == kFn {
+			st.e.gReaders[st.key] = true
+			out.addAll(st.e.gheap[o])
+		}
 	}
 	return out
 }
@@ -712,20 +720,40 @@ func (e *e3Engine) initGlobals() {
 	e.fixpoint()
 }
 
+// fixpoint re-analyses every summary whose callees' summaries (or the global heap) changed,
+// until nothing changes.
 func (e *e3Engine) fixpoint() {
-	for round := 0; round < 60; round++ {
-		e.changed = false
+	for n := 0; len(e.dirty) > 0; n++ {
+		if n > 400000 {
+			panic("E3: no fixpoint")
+		}
 		e.rounds++
-		keys := append([]string{}, e.order...)
-		for _, k := range keys {
+		var ks []string
+		for k := range e.dirty {
+			ks = append(ks, k)
+		}
+		sort.Strings(ks)
+		for _, k := range ks {
+			if !e.dirty[k] {
+				continue
+			}
+			delete(e.dirty, k)
 			s := e.summ[k]
 			e.analyse(s.fn, s.ctxFns, k)
 		}
-		if !e.changed {
-			return
-		}
 	}
-	panic("E3: no fixpoint after 60 rounds")
+}
+
+func (e *e3Engine) markDependents(key string) {
+	for d := range e.dependents[key] {
+		e.dirty[d] = true
+	}
+}
+
+func (e *e3Engine) globalHeapChanged() {
+	for k := range e.gReaders {
+		e.dirty[k] = true
+	}
 }
 
 // summaryOf returns the current summary (possibly still growing) for fn in ctx.
@@ -737,7 +765,6 @@ func (e *e3Engine) summaryOf(fn *ssa.Function, ctx map[int]map[*ssa.Function]boo
 	s := &summary{fn: fn, ctx: ctxKeyOf(ctx), stores: map[*Obj]oset{}, fnContents: map[*Obj]oset{}, freshDeep: oset{}, undecided: map[string]string{}, formats: map[int]bool{}, ctxFns: ctx}
 	e.summ[key] = s
 	e.order = append(e.order, key)
-	e.changed = true
 	if len(e.order) > 20000 {
 		panic("E3: context explosion")
 	}
@@ -752,7 +779,7 @@ func (e *e3Engine) analyse(fn *ssa.Function, ctx map[int]map[*ssa.Function]bool,
 	e.inProg[key] = true
 	defer delete(e.inProg, key)
 	e.nAnalysed++
-	st := &fstate{e: e, fn: fn, ctx: ctx, ctxKey: ctxKeyOf(ctx), pts: map[ssa.Value]oset{}, tpts: map[ssa.Value][]oset{}, contains: map[*Obj]oset{}, etype: map[*Obj]map[*Obj]map[string]types.Type{},
+	st := &fstate{key: key, e: e, fn: fn, ctx: ctx, ctxKey: ctxKeyOf(ctx), pts: map[ssa.Value]oset{}, tpts: map[ssa.Value][]oset{}, contains: map[*Obj]oset{}, etype: map[*Obj]map[*Obj]map[string]types.Type{},
 		muts: map[string]mutEvent{}, flowsrc: map[string]flowEvent{}, undec: map[string]string{}, formats: map[int]bool{}}
 	st.nparams = len(fn.Params)
 	for i, p := range fn.Params {
@@ -944,10 +971,10 @@ func (e *e3Engine) buildSummary(st *fstate, key string) {
 		s.flows = append(s.flows, st.flowsrc[k])
 	}
 	s.sig = s.signature()
-	if old == nil || old.sig != s.sig {
-		e.changed = true
-	}
 	e.summ[key] = s
+	if old == nil || old.sig != s.sig {
+		e.markDependents(key)
+	}
 }
 
 func (s *summary) signature() string {
@@ -1484,7 +1511,11 @@ func (st *fstate) applySummary(in ssa.Instruction, f *ssa.Function, args []ssa.V
 	e := st.e
 	ctx := st.ctxFor(f, as)
 	s := e.summaryOf(f, ctx)
-	_ = len(f.Params)
+	ck := funcKey(f) + "|" + ctxKeyOf(ctx)
+	if e.dependents[ck] == nil {
+		e.dependents[ck] = map[string]bool{}
+	}
+	e.dependents[ck][st.key] = true
 	all := append(append([]oset{}, as...), fvsets...)
 	// Pr(i,k) ↦ objects reachable from the argument by exactly k loads (k = 3: three or more)
 	levels := map[[2]int]oset{}
